@@ -564,6 +564,11 @@ func ruleC16Direct(cx *Ctx) {
 					break
 				}
 				v, known := flags[fname(f)]
+				if fname(f) == "withMaintenance" && g.Truth {
+					// without maintenance there is no write buffer (C01.config: the buffers exist exactly under this flag):
+					// a drain skipped for that reason skips nothing
+					v, known = true, true
+				}
 				if !known || v != g.Truth {
 					ok = false
 					break
@@ -744,7 +749,21 @@ func ruleC09Install(cx *Ctx) {
 			callers, all := 0, true
 			for _, g := range cx.P.FuncsOfPkg("") {
 				allInstrs(g, func(in ssa.Instruction) {
+					ref := false
 					if c := calleeOf(in); c != nil && origin(c) == origin(fn) {
+						ref = true
+					}
+					// a method value (commit.apply handed to the table computation): the bound-method wrapper calls fn
+					if mc, isMC := in.(*ssa.MakeClosure); isMC {
+						if w, _ := mc.Fn.(*ssa.Function); w != nil && w.Synthetic != "" {
+							allInstrs(w, func(x ssa.Instruction) {
+								if c := calleeOf(x); c != nil && origin(c) == origin(fn) {
+									ref = true
+								}
+							})
+						}
+					}
+					if ref {
 						callers++
 						if !onlyInst[g] && !onlyInst[outermost(g)] {
 							all = false
